@@ -54,9 +54,9 @@ Qed.
 (* prettify changes whitespace only: dropping every whitespace character from the pretty-printed and
    from the plain rendering gives the same text *)
 Theorem pretty_only_ws enc f : all_ws (f_indent f) = true ->
-  forall t lv pn nn, nows (concat (pretty enc f lv pn nn t)) = nows (concat (plain enc f pn nn t)).
+  forall t lv pn, nows (concat (pretty enc f lv pn t)) = nows (concat (plain enc f pn t)).
 Proof.
-  intros Hind. induction t as [c s|p ks IH] using node_ind'; intros lv pn nn.
+  intros Hind. induction t as [c s|p ks IH] using node_ind'; intros lv pn.
   - cbn [pretty plain concat]. rewrite !app_nil_r. now apply nows_deco.
   - rewrite pretty_tag, plain_tag. cbn zeta. destruct (is_empty_element p (length ks)).
     + cbn [concat]. rewrite !app_nil_r. now apply nows_deco.
@@ -90,12 +90,12 @@ Qed.
    stripped (strings only) and given indentation / a newline *)
 Definition decorates (f : fmt) (pp pl : str) : Prop :=
   pp = pl \/ exists is_str lv b a, pp = deco f is_str pl lv b a.
-Theorem pretty_pieces enc f : forall t lv pn nn,
-  Forall2 (decorates f) (pretty enc f lv pn nn t) (plain enc f pn nn t).
+Theorem pretty_pieces enc f : forall t lv pn,
+  Forall2 (decorates f) (pretty enc f lv pn t) (plain enc f pn t).
 Proof.
   assert (Hrefl : forall l, Forall2 (decorates f) l l).
   { induction l; constructor; [now left|assumption]. }
-  induction t as [c s|p ks IH] using node_ind'; intros lv pn nn.
+  induction t as [c s|p ks IH] using node_ind'; intros lv pn.
   - constructor; [|constructor]. right. now exists true, lv, true, true.
   - rewrite pretty_tag, plain_tag. cbn zeta. destruct (is_empty_element p (length ks)).
     + constructor; [|constructor]. right. now exists false, lv, true, true.
@@ -130,10 +130,10 @@ Lemma concat_map_app {X} (g : X -> str) a b : concat (map g (a ++ b)) = concat (
 Proof. now rewrite map_app, concat_app. Qed.
 
 (* the pretty-printed rendering is its items, one per line: indent * depth, text, newline *)
-Theorem pretty_lines enc f : forall t lv pn nn, no_hidden t = true ->
-  concat (pretty enc f lv pn nn t) = concat (map (line f) (items enc f lv pn nn t)).
+Theorem pretty_lines enc f : forall t lv pn, no_hidden t = true ->
+  concat (pretty enc f lv pn t) = concat (map (line f) (items enc f lv pn t)).
 Proof.
-  induction t as [c s|p ks IH] using node_ind'; intros lv pn nn Hh.
+  induction t as [c s|p ks IH] using node_ind'; intros lv pn Hh.
   - cbn [pretty items concat]. now rewrite app_nil_r, (deco_line f true).
   - cbn [no_hidden] in Hh. apply andb_prop in Hh as [Hp Hks]. apply negb_true_iff in Hp.
     rewrite pretty_tag, items_tag. cbn zeta. destruct (is_empty_element p (length ks)) eqn:Eemp.
@@ -199,10 +199,10 @@ Lemma block_texts_app a b : block_texts (a ++ b) = block_texts a ++ block_texts 
 Proof. unfold block_texts. now rewrite filter_app, map_app. Qed.
 Lemma block_texts_simple lv s : block_texts (simple_items lv s) = [].
 Proof. unfold simple_items, nonblank. now destruct s. Qed.
-Theorem pw_verbatim enc f : forall t lv pn nn,
-  block_texts (items enc f lv pn nn t) = pw_blocks enc f pn nn t.
+Theorem pw_verbatim enc f : forall t lv pn,
+  block_texts (items enc f lv pn t) = pw_blocks enc f pn t.
 Proof.
-  induction t as [c s|p ks IH] using node_ind'; intros lv pn nn.
+  induction t as [c s|p ks IH] using node_ind'; intros lv pn.
   - cbn [items pw_blocks]. apply block_texts_simple.
   - rewrite items_tag, pw_blocks_tag. cbn zeta. destruct (is_empty_element p (length ks)); [apply block_texts_simple|].
     destruct (should_pretty_print p); [|reflexivity].
@@ -220,11 +220,11 @@ Qed.
 (* every non-block item of a tree rendered from level lv sits at depth >= lv; more precisely a
    node's items sit at lv + (number of its proper ancestors below the starting element) — by the
    definition of [items]. What follows pins the two ends: the starting element at lv, its children one deeper. *)
-Lemma items_depth_ge enc f : forall t lv pn nn, Forall (fun it => (lv <= it_depth it)%Z) (items enc f lv pn nn t).
+Lemma items_depth_ge enc f : forall t lv pn, Forall (fun it => (lv <= it_depth it)%Z) (items enc f lv pn t).
 Proof.
   assert (Hs : forall lv lv' s, (lv <= lv')%Z -> Forall (fun it => (lv <= it_depth it)%Z) (simple_items lv' s)).
   { intros lv lv' s H. unfold simple_items, nonblank. destruct s; repeat constructor; exact H. }
-  induction t as [c s|p ks IH] using node_ind'; intros lv pn nn.
+  induction t as [c s|p ks IH] using node_ind'; intros lv pn.
   - cbn [items]. apply Hs; lia.
   - rewrite items_tag. cbn zeta. destruct (is_empty_element p (length ks)); [apply Hs; lia|].
     destruct (should_pretty_print p); [|repeat constructor; cbn; lia].
